@@ -178,6 +178,9 @@ def _label_array(case):
         return np.array([pool[i] for i in z], dtype=np.int64)
     if kind == "int32":
         return np.array([pool[i] for i in z], dtype=np.int32)
+    if kind == "int-big":
+        # 64-bit identifiers / nanosecond timestamps: distinct integers beyond 2**53, several of which are one and the same double
+        return np.array([2 ** 53 + 1000 + pool[i] for i in z], dtype=np.int64)
     if kind == "float":
         return np.array([np.nan if i is None else pool[i] + 0.5 for i in z], dtype=np.float64)
     if kind == "float-integral":      # the only float labels scikit-learn classifiers accept
@@ -222,7 +225,7 @@ def _shape_labels(y, layout, m):
 def check_permutation(case):
     y = _shape_labels(_label_array(case), case.get("layout"), case.get("cols", 2))
     facts = dict(label_kind=case["label_kind"], n_classes=len(set(i for i in case["z"] if i is not None)))
-    closest = bool(case.get("closest")) and case["label_kind"] in ("int", "float") and not any(i is None for i in case["z"]) and y.ndim == 1
+    closest = bool(case.get("closest")) and case["label_kind"] in ("int", "float", "int-big") and not any(i is None for i in case["z"]) and y.ndim == 1
     t = _fct.PermutationReciprocalTransformer(random_state=case["random_state"], closest=closest)
     np.random.seed(case["seed"])
     if case.get("first") is not None:
@@ -275,7 +278,7 @@ def check_permutation(case):
 
 
 @st.composite
-def _perm_cases(draw, tier="quick", kinds=("int", "int32", "float", "str-object", "str-fixed")):
+def _perm_cases(draw, tier="quick", kinds=("int", "int32", "float", "str-object", "str-fixed", "int-big")):
     kind = draw(st.sampled_from(list(kinds)))
     k = draw(st.integers(2, 6))
     pool = draw(st.lists(st.integers(-9, 30), min_size=k, max_size=k, unique=True))
